@@ -105,6 +105,9 @@ def component_twins(ctx: Ctx):
         c1, t1 = p_exact.build_poly_component(rng, nx, 0, ny, levels, kpl, unit, name='orig')
         # a third of the twins normalise their inputs with minmax (the normalisation must not introduce an absolute length scale either)
         tw_norms = {f'x{k}': 'minmax' for k in range(nx)} if rng.random() < 0.33 else None
+        if i < 2:       # stratified: the narrowest width of the property's range (1e-9) under minmax is always covered
+            tw_norms = {f'x{k}': 'minmax' for k in range(nx)}
+            doms[0] = (rng.choice([0.0, 1.0]), 0.0); doms[0] = (doms[0][0], doms[0][0] + 1e-9)
         case['twin_input_norm'] = 'minmax' if tw_norms else None
         c2, t2 = p_exact.build_poly_component(rng, nx, 0, ny, levels, kpl, doms, name='twin', norms=tw_norms)
         p_exact.fill_terms(rng, t1, S, 0, nx, kpl)
